@@ -67,27 +67,28 @@ def serialize(w, r, k):
         w.claim('descriptors, padded data, reference indexes', w.eq_seq(w.bytes_seq(got), want))
 
 
-SHAPES = {
-    'single': lambda w: _dag(w, {0: []}),
-    'chain2': lambda w: _dag(w, {0: [1], 1: []}),
-    'twice': lambda w: _dag(w, {0: [1, 1], 1: []}),
-    'fan2': lambda w: _dag(w, {0: [1, 2], 1: [], 2: []}),
-    'chain3': lambda w: _dag(w, {0: [1], 1: [2], 2: []}),
-    'diamond': lambda w: _dag(w, {0: [1, 2], 1: [2], 2: []}),
-    'diamond_rev': lambda w: _dag(w, {0: [2, 1], 1: [2], 2: []}),
-    'twice_deep': lambda w: _dag(w, {0: [1, 1], 1: [2], 2: []}),
-    'reach_again': lambda w: _dag(w, {0: [1, 2], 1: [3], 2: [1], 3: []}),
+GRAPHS = {
+    'single': {0: []},
+    'chain2': {0: [1], 1: []},
+    'twice': {0: [1, 1], 1: []},
+    'fan2': {0: [1, 2], 1: [], 2: []},
+    'chain3': {0: [1], 1: [2], 2: []},
+    'diamond': {0: [1, 2], 1: [2], 2: []},
+    'diamond_rev': {0: [2, 1], 1: [2], 2: []},
+    'twice_deep': {0: [1, 1], 1: [2], 2: []},
+    'reach_again': {0: [1, 2], 1: [3], 2: [1], 3: []},
 }
+SHAPES = {k: (lambda w, g=g: _dag(w, g)) for k, g in GRAPHS.items()}
 
 
-def _dag(w, g):
+def _dag(w, g, m8f=None):
     cells = {}
 
     def build(i):
         if i not in cells:
             for j in g[i]:
                 build(j)
-            cells[i] = mk_cell(w, f'c{i}', [cells[j] for j in g[i]], i + 1)
+            cells[i] = mk_cell(w, f'c{i}', [cells[j] for j in g[i]], i + 1, m8=(m8f(i) if m8f else None))
     for i in g:
         build(i)
     return cells, g
